@@ -274,6 +274,68 @@ def shard_strings(shard, nshards):
     return run
 
 
+def array_index_cases():
+    """Constant arrays whose INDEXES are constant arrays over a finite sort.  Such an index value has several spellings
+    (Array(Bool, 0){T:=1, F:=2} and Array(Bool, 1){F:=2} are the same function): a case is 'aliased' when it uses two
+    different spellings of one value, 'distinct' otherwise.  -> (term, spellings used)"""
+    from vf.bp import const, app
+    T_, F_ = const(BOOL, True), const(BOOL, False)
+
+    def lit(it, default, *pairs):
+        ch = [default]
+        for k, v in pairs:
+            ch += [k, v]
+        return ("ARRAY_VALUE", (it,), tuple(ch))
+    I = lambda v: const(INT, v)
+    spell = {}          # value (f(False), f(True)) -> spellings
+    for a in (0, 1, 2):
+        for b in (0, 1, 2):
+            sp = [lit(BOOL, I(a), (T_, I(b))), lit(BOOL, I(b), (F_, I(a)))]
+            if a != b:
+                sp.append(lit(BOOL, I(5), (F_, I(a)), (T_, I(b))))
+            spell[(a, b)] = sp
+    IT = ("Array", BOOL, INT)
+    vals = sorted(spell)
+    for va in vals[:5]:
+        for sa in spell[va]:
+            outer = lit(IT, I(0), (sa, I(7)))
+            for vq in vals[:5]:
+                for sq in spell[vq]:
+                    yield app("ARRAY_SELECT", outer, sq), (sa, sq)
+                    yield app("EQUALS", app("ARRAY_SELECT", app("ARRAY_STORE", outer, sq, I(9)), sa), I(9)), (sa, sq)
+            for vb in vals[2:6]:
+                sb = spell[vb][-1]
+                outer2 = lit(IT, I(0), (sa, I(7)), (sb, I(8)))
+                for sq in spell[va] + spell[vb]:
+                    yield app("ARRAY_SELECT", outer2, sq), (sa, sb, sq)
+                yield app("EQUALS", outer2, lit(IT, I(0), (spell[vb][0], I(8)), (spell[va][0], I(7)))), (sa, sb, spell[vb][0], spell[va][0])
+
+
+def shard_array_index(shard, nshards):
+    from vf.refsem import Evaluator, canon
+    run = Run(PID)
+    for idx, (t, used) in enumerate(array_index_cases()):
+        if idx % nshards != shard:
+            continue
+        env, _ = fresh_build(t)
+        with env:
+            nodes = [pys.build(env, u) for u in used]
+        keys = [canon(Evaluator({}, {}).eval(u), reftype(u), {}) for u in used]
+        aliased = any(keys[i] == keys[j] and nodes[i] is not nodes[j] for i in range(len(used)) for j in range(i))
+        try:
+            out, changed, b0, b1 = simplify_outcome(t, [{}], {})
+        except (Rejected, NoSemantics):
+            run.discard("array-valued-index:not-judged")
+            continue
+        run.case(key=t, nontrivial=True, sample={"formula": show(b0, 200), "simplified": show(b1, 100)} if idx % 97 == 0 else None)
+        run.cls("array-valued-index:" + ("aliased" if aliased else "distinct"))
+        if out is not None and not out[0].startswith("skip-"):
+            run.fail({"subcheck": "simplify:" + out[0], "family": "array-valued-index", "aliased": aliased},
+                     {"bp": t, "interps": [{}], "cards": {}},
+                     "%s: %s\n formula=%s\n simplified=%s" % (out[0], out[1], show(b0), show(b1)))
+    return run
+
+
 def main():
     chk = Check(PID, "exploration", RULE, assumptions=[
         "reference evaluator vf/refsem.py transcribes SMT-LIB 2.6 theory semantics",
@@ -296,6 +358,8 @@ def main():
         jobs.append((shard_enum, dict(shard=sh, nshards=16, stride=stride, offset=chk.seed)))
     for sh in range(4):
         jobs.append((shard_strings, dict(shard=sh, nshards=4)))
+    for sh in range(2):
+        jobs.append((shard_array_index, dict(shard=sh, nshards=2)))
     chk.add(run_shards(jobs))
     chk.exhaustive.append("every string operator over a pool of %d string and %d integer constants (plus one symbol per position)"
                           % (len(STR_POOL), len(STR_INTS)))
@@ -307,6 +371,8 @@ def main():
         chk.notes["enumerated_terms"] = "1/%d of the two-operator terms (slice chosen by VERIF_SEED); the thorough tier takes all" % stride
     chk.floor("rewrite-fired", 500)
     chk.floor("enumerated-string-term", 2000)
+    chk.floor("array-valued-index:distinct", 200)
+    chk.floor("array-valued-index:aliased", 200)
     for o in ("FORALL", "ARRAY_STORE", "STR_SUBSTR", "DIV", "BV_SDIV", "FUNCTION", "ITE"):
         chk.floor("op:" + o, 20)
     return chk.finish()
